@@ -22,7 +22,7 @@ func init() {
 			return stdBatches([]string{"base"}, 16)
 		},
 		Gates: func(tier string) map[string]int64 {
-			return map[string]int64{"histories": 3000, "marshals": 20000, "mutations": 20000, "mutation_after_cached_size": 5000, "size_cache_hits": 10000, "deep_mutations": 2000, "lazy_histories": 100, "lazy_expanded_then_mutated": 50, "use_cached_size_marshals": 2000}
+			return map[string]int64{"histories": 3000, "marshals": 20000, "mutations": 20000, "mutation_after_cached_size": 5000, "size_cache_hits": 10000, "deep_mutations": 500, "lazy_histories": 100, "lazy_expanded_then_mutated": 50, "use_cached_size_marshals": 2000}
 		},
 		Run: runC16,
 	})
@@ -78,7 +78,7 @@ func runC16(c *core.Ctx, b core.Batch) {
 	}()
 
 	types := shard(codecTypes(b), b.N, 16)
-	per := c.Scale(6, 120)
+	per := c.Scale(8, 120)
 	for ti, mt := range types {
 		for k := 0; k < per; k++ {
 			r := c.Rng(uint64(ti)<<24 | uint64(k))
